@@ -508,11 +508,15 @@ class PODReader(Reader):
         missed_utcs = ((missed_lines - scan_lines[0])*np.timedelta64(scan_rate, "us")
                        + self._times_as_np_datetime64[0])
         # calculate the missing geo locations
-        try:
-            missed_lons, missed_lats = self._compute_missing_lonlat(missed_utcs)
-        except NoTLEData as err:
-            LOG.warning("Cannot perform clock drift correction: %s", str(err))
-            return
+        if len(missed_lines) == 0:
+            # all lines needed for the interpolation are in the file
+            missed_lons = missed_lats = np.empty((0, self.lats.shape[1]))
+        else:
+            try:
+                missed_lons, missed_lats = self._compute_missing_lonlat(missed_utcs)
+            except NoTLEData as err:
+                LOG.warning("Cannot perform clock drift correction: %s", str(err))
+                return
 
         # create arrays of lons and lats for interpolation. The locations
         # correspond to not yet corrected utcs, i.e. the time difference from
